@@ -139,7 +139,7 @@ package index
 //@   exclusive Close runs after all users of the index have stopped (Store.Close contract, C17)
 //@   preserves idx
 //@   requires @D1-primary-first !idx.Primary.$pending || idx.Primary.$failed
-//@   requires @record-size-limit forall b BucketIndex :: (b in idx.nextPool) ==> len(idx.nextPool[b]) < (1 << 31) - 8
+//@   local requires @record-size-limit forall b BucketIndex :: (b in idx.nextPool) ==> len(idx.nextPool[b]) < (1 << 31) - 8
 //@   modifies fp(FC), idx.gcStop, chan(idx.gcStop), chan(idx.gcDone), idx.curPool, idx.nextPool, idx.outstandingWork, idx.file, idx.fileNum, idx.length, elems(idx.buckets), idx.$pending, idx.$closed
 //@   ghost at return: idx.$closed = idx.$closed || (!idx.file.$open && idx.gcStop == nil)
 //@   ghost var gflusherr bool = true
@@ -225,7 +225,7 @@ package index
 // table is unchanged.
 //@ func (idx *Index) Flush() (work types.Work, err error)  property C03
 //@   preserves idx
-//@   requires @record-size-limit forall b BucketIndex :: (b in idx.nextPool) ==> len(idx.nextPool[b]) < (1 << 31) - 8
+//@   local requires @record-size-limit forall b BucketIndex :: (b in idx.nextPool) ==> len(idx.nextPool[b]) < (1 << 31) - 8
 //@   modifies idx.curPool, idx.nextPool, idx.outstandingWork, idx.file, idx.fileNum, idx.length, elems(idx.buckets), idx.file.$open
 //@   ensures @file-fresh idx.file == old(idx.file) || fresh(idx.file)
 //@   ghost var gflushed bool = false
